@@ -59,6 +59,7 @@ type layout struct {
 	inserted    int
 	splitAt     map[int]bool // node indices after which a new reader starts
 	trailingCmt bool
+	minimal     bool // expressions carry only the parentheses that precedence and associativity require
 }
 
 var opSpell = map[string][2]string{
@@ -67,6 +68,9 @@ var opSpell = map[string][2]string{
 }
 
 func (e *gExpr) render(l *layout, top bool) string {
+	if l.minimal && top {
+		return e.renderMinimal(l)
+	}
 	if e.op == "" {
 		return e.leaf
 	}
@@ -121,10 +125,9 @@ func genBody(r *rand.Rand, depth, n int, titles []string) []gStmt {
 				g.opts = append(g.opts, o)
 			}
 			out = append(out, g)
-			if r.Intn(2) == 0 { // a group is closed by a following non-option statement
-				lineCount++
-				out = append(out, gStmt{kind: "line", text: fmt.Sprintf("After group %d", lineCount)})
-			}
+			// a group is closed by a following non-option statement (two adjacent groups would be one group)
+			lineCount++
+			out = append(out, gStmt{kind: "line", text: fmt.Sprintf("After group %d", lineCount)})
 		case k < 6 && depth > 0:
 			g := gStmt{kind: "if"}
 			g.clauses = append(g.clauses, gClause{cond: genExpr(r, 2, true), body: genBody(r, depth-1, 1+r.Intn(2), titles)})
@@ -140,7 +143,11 @@ func genBody(r *rand.Rand, depth, n int, titles []string) []gStmt {
 		case k < 8:
 			out = append(out, gStmt{kind: "command", text: fmt.Sprintf("act %d fast {$n}", lineCount)})
 		case k < 9:
-			out = append(out, gStmt{kind: "set", name: "$b", expr: genExpr(r, 2, true)})
+			if r.Intn(3) == 0 {
+				out = append(out, gStmt{kind: "declare", name: fmt.Sprintf("$d%d", lineCount), expr: genExpr(r, 0, r.Intn(2) == 0)}) // the grammar allows a single value here
+			} else {
+				out = append(out, gStmt{kind: "set", name: "$b", expr: genExpr(r, 2, true)})
+			}
 		default:
 			if r.Intn(2) == 0 {
 				out = append(out, gStmt{kind: "jump", name: titles[r.Intn(len(titles))]})
@@ -365,6 +372,244 @@ func normalise(d *Dialogue) {
 	}
 }
 
+// ---- structural oracle: the parsed dialogue is the generated program -------------------------------------------
+//
+// The canonical rendering (fully parenthesised expressions) and a rendering with only the parentheses that
+// precedence and associativity require are parsed and compared with the generator's own syntax tree: statement
+// kinds and order, option texts / conditions / bodies, if chains, set / declare targets and operators, jump
+// targets, command words, inline expressions, tags, and expression trees (operator constants, operands).
+
+var binOpConst = map[string]int{"*": MultiplicationBinaryOperator, "/": DivisionBinaryOperator, "%": ModuloBinaryOperator, "+": AdditionBinaryOperator,
+	"-": SubtractionBinaryOperator, "<=": LessThanEqualsBinaryOperator, ">=": GreaterThanEqualsBinaryOperator, "<": LessBinaryOperator, ">": GreaterBinaryOperator,
+	"==": EqualsBinaryOperator, "!=": NotEqualsBinaryOperator, "&&": AndBinaryOperator, "||": OrBinaryOperator, "^": XorBinaryOperator}
+
+// precedence levels of the grammar (a higher level binds tighter); and / or / xor share one level
+var opLevel = map[string]int{"*": 5, "/": 5, "%": 5, "+": 4, "-": 4, "<=": 3, ">=": 3, "<": 3, ">": 3, "==": 2, "!=": 2, "&&": 1, "||": 1, "^": 1}
+
+func (e *gExpr) renderMinimal(l *layout) string {
+	if e.op == "" {
+		return e.leaf
+	}
+	if e.op == "!" {
+		in := e.l.renderMinimal(l)
+		if e.l.op != "" && e.l.op != "!" {
+			in = "(" + in + ")"
+		}
+		return [2]string{"!", "not "}[l.spell] + in
+	}
+	lv := opLevel[e.op]
+	ls, rs := e.l.renderMinimal(l), e.r.renderMinimal(l)
+	if e.l.op != "" && e.l.op != "!" && opLevel[e.l.op] < lv {
+		ls = "(" + ls + ")"
+	}
+	if e.r.op != "" && e.r.op != "!" && opLevel[e.r.op] <= lv { // left-associative: an equal level on the right needs parentheses
+		rs = "(" + rs + ")"
+	}
+	return ls + " " + opSpell[e.op][l.spell] + " " + rs
+}
+
+func matchExpr(g *gExpr, e *Expression) string {
+	if e == nil {
+		return "missing expression for " + g.render(&layout{}, true)
+	}
+	switch {
+	case g.op == "":
+		switch {
+		case g.leaf == "true" || g.leaf == "false":
+			if e.Value == nil || e.Value.Boolean == nil || *e.Value.Boolean != (g.leaf == "true") {
+				return "boolean literal " + g.leaf + " not found"
+			}
+		case strings.HasPrefix(g.leaf, "$"):
+			if e.VariableID == nil || *e.VariableID != g.leaf[1:] {
+				return "variable " + g.leaf + " not found"
+			}
+		default:
+			f, _ := strconv.ParseFloat(g.leaf, 64)
+			if e.Value == nil || e.Value.Number == nil || *e.Value.Number != f {
+				return "number literal " + g.leaf + " not found"
+			}
+		}
+		if e.LeftOperand != nil || e.RightOperand != nil || e.NotExpression != nil || e.NegativeExpression != nil || e.Operator != nil {
+			return "leaf " + g.leaf + " carries an operator"
+		}
+	case g.op == "!":
+		if e.NotExpression == nil || e.Operator != nil || e.Value != nil {
+			return "negation not found for " + g.render(&layout{}, true)
+		}
+		return matchExpr(g.l, e.NotExpression)
+	default:
+		if e.Operator == nil || *e.Operator != binOpConst[g.op] || e.NotExpression != nil || e.Value != nil {
+			return "operator " + g.op + " not found at " + g.render(&layout{}, true)
+		}
+		if m := matchExpr(g.l, e.LeftOperand); m != "" {
+			return m
+		}
+		return matchExpr(g.r, e.RightOperand)
+	}
+	return ""
+}
+
+func lineText(l *LineStatement) (string, int) {
+	if l == nil || l.Text == nil {
+		return "", 0
+	}
+	t, n := "", 0
+	for _, el := range l.Text.Elements {
+		if el.Expression != nil {
+			t += "{}"
+			n++
+		} else {
+			t += el.Text
+		}
+	}
+	return strings.TrimSpace(t), n
+}
+
+func matchStmts(gs []gStmt, ps []*Statement) string {
+	i := 0
+	for _, g := range gs {
+		if i >= len(ps) {
+			return fmt.Sprintf("statement %d (%s) is missing", i, g.kind)
+		}
+		p := ps[i]
+		i++
+		switch g.kind {
+		case "line":
+			want := g.text
+			var tags []string
+			if k := strings.Index(want, " #"); k >= 0 {
+				tags = []string{want[k+2:]}
+				want = want[:k]
+			}
+			want = strings.ReplaceAll(want, "{$n}", "{}")
+			got, _ := lineText(p.LineStatement)
+			if p.LineStatement == nil || got != want {
+				return fmt.Sprintf("line %q parsed as %q", want, got)
+			}
+			if len(tags) != len(p.LineStatement.Tags) || (len(tags) == 1 && tags[0] != p.LineStatement.Tags[0]) {
+				return fmt.Sprintf("line %q has tags %v, wanted %v", want, p.LineStatement.Tags, tags)
+			}
+			if strings.Contains(g.text, "{$n}") {
+				ok := false
+				for _, el := range p.LineStatement.Text.Elements {
+					ok = ok || (el.Expression != nil && el.Expression.VariableID != nil && *el.Expression.VariableID == "n")
+				}
+				if !ok {
+					return fmt.Sprintf("line %q lost its inline expression", g.text)
+				}
+			}
+		case "option-group":
+			so := p.ShortcutOptionStatement
+			if so == nil || len(so.Options) != len(g.opts) {
+				n := -1
+				if so != nil {
+					n = len(so.Options)
+				}
+				return fmt.Sprintf("option group of %d options parsed with %d", len(g.opts), n)
+			}
+			for k, o := range g.opts {
+				got, _ := lineText(so.Options[k].LineStatement)
+				if got != o.text {
+					return fmt.Sprintf("option %q parsed as %q", o.text, got)
+				}
+				if (o.cond != nil) != (so.Options[k].LineStatement.Condition != nil) {
+					return fmt.Sprintf("option %q: condition presence differs", o.text)
+				}
+				if o.cond != nil {
+					if m := matchExpr(o.cond, so.Options[k].LineStatement.Condition); m != "" {
+						return "option " + o.text + ": " + m
+					}
+				}
+				if m := matchStmts(o.body, so.Options[k].Statements); m != "" {
+					return "in option " + o.text + ": " + m
+				}
+			}
+		case "if":
+			is := p.IfStatement
+			if is == nil || len(is.Clauses) != len(g.clauses) {
+				return "if statement with another number of clauses"
+			}
+			for k, c := range g.clauses {
+				cond := c.cond
+				if cond == nil {
+					cond = &gExpr{leaf: "true"} // an else clause is stored with the condition true
+				}
+				if m := matchExpr(cond, is.Clauses[k].Condition); m != "" {
+					return "if condition: " + m
+				}
+				if m := matchStmts(c.body, is.Clauses[k].Statements); m != "" {
+					return "in if clause: " + m
+				}
+			}
+		case "set":
+			ss := p.SetStatement
+			if ss == nil || ss.VariableID != g.name[1:] || ss.InPlaceOperator != AssignmentInPlaceOperator {
+				return "set " + g.name + " not found"
+			}
+			if m := matchExpr(g.expr, ss.Expression); m != "" {
+				return "set " + g.name + ": " + m
+			}
+		case "declare":
+			ds := p.DeclareStatement
+			if ds == nil || ds.VariableID != g.name[1:] {
+				return "declare " + g.name + " not found"
+			}
+			if m := matchExpr(g.expr, ds.Value); m != "" {
+				return "declare " + g.name + ": " + m
+			}
+		case "jump":
+			js := p.JumpStatement
+			if js == nil || js.Expression == nil || js.Expression.Value == nil || js.Expression.Value.String == nil || *js.Expression.Value.String != g.name {
+				return "jump " + g.name + " not found"
+			}
+		case "command":
+			cs := p.CommandStatement
+			words := strings.Fields(g.text)
+			if cs == nil || len(cs.Elements) != len(words) {
+				return "command " + g.text + " parsed with another number of elements"
+			}
+			for k, w := range words {
+				e := cs.Elements[k].Expression
+				switch {
+				case e == nil:
+					return "command " + g.text + ": element without expression"
+				case w == "{$n}":
+					if e.VariableID == nil || *e.VariableID != "n" {
+						return "command " + g.text + ": inline expression lost"
+					}
+				default:
+					if f, err := strconv.ParseFloat(w, 64); err == nil {
+						if e.Value == nil || e.Value.Number == nil || *e.Value.Number != f {
+							return "command " + g.text + ": number word " + w
+						}
+					} else if e.Value == nil || e.Value.String == nil || *e.Value.String != w {
+						return "command " + g.text + ": word " + w
+					}
+				}
+			}
+		}
+	}
+	if i != len(ps) {
+		return fmt.Sprintf("%d extra statements", len(ps)-i)
+	}
+	return ""
+}
+
+func matchProgram(nodes []gNode, d *Dialogue) string {
+	if d == nil || len(d.Nodes) != len(nodes) {
+		return "another number of nodes"
+	}
+	for i, n := range nodes {
+		if d.Nodes[i].Title() != n.title {
+			return "node " + n.title + " has title " + d.Nodes[i].Title()
+		}
+		if m := matchStmts(n.body, d.Nodes[i].Statements); m != "" {
+			return "node " + n.title + ": " + m
+		}
+	}
+	return ""
+}
+
 var findingOf = map[string]string{
 	"blank-nested":                "D9",
 	"wsline-other-width-nested":   "D9",
@@ -397,6 +642,22 @@ func TestBoundedParseLayouts(t *testing.T) {
 				fmt.Printf("BOUNDED-VIOLATION canonical-rendering-rejected %s\n", strconv.Quote(fmt.Sprintf("err=%v panic=%v script=%s", err, pan, cr[0])))
 			}
 			continue
+		}
+		if m := matchProgram(nodes, want); m != "" && viol < 5 {
+			viol++
+			fmt.Printf("BOUNDED-VIOLATION parsed-program-differs-from-the-script %s\n", strconv.Quote(m+" in script="+cr[0]))
+		}
+		{ // precedence and associativity: the same program with minimal parentheses
+			ml := &layout{unit: "    ", r: r, minimal: true, spell: r.Intn(2)}
+			got, err, pan := parseAll(render(nodes, ml))
+			normalise(got)
+			cases++
+			if err != nil || pan != nil || !reflect.DeepEqual(want, got) {
+				if viol < 5 {
+					viol++
+					fmt.Printf("BOUNDED-VIOLATION precedence-or-associativity %s\n", strconv.Quote(fmt.Sprintf("err=%v panic=%v script=%s", err, pan, render(nodes, ml)[0])))
+				}
+			}
 		}
 		for v := 0; v < 14; v++ {
 			l := &layout{unit: units[r.Intn(len(units))], crlf: r.Intn(3) == 0, spell: r.Intn(2), parens: r.Intn(3) == 0, cmdSpaces: r.Intn(3) == 0,
